@@ -35,6 +35,14 @@ const Harness *find_harness(const char *id) {
     return nullptr;
 }
 
+namespace hdict {
+static const uint64_t kWords[] = {
+#include "dict64.inc"
+    0x0ull};
+size_t size() { return sizeof kWords / sizeof kWords[0] - 1; }
+uint64_t at(size_t i) { return size() ? kWords[i % size()] : 0; }
+} // namespace hdict
+
 namespace hgen {
 void sched_config(sim::Rng &r, sim::Plan &p, bool multi_threaded, bool allow_spurious, bool allow_stall, bool allow_clockjump,
                   int starve_tid) {
